@@ -83,7 +83,9 @@ def moveDest (d : Dest) (now : Int) (moved : Nat) : Except Err Dest :=
 /-- `d.unlock(now, end, false)`: the amount for the period and the updated destination. -/
 def unlockDest (d : Dest) (now end_ : Int) : Except Err (Dest × Nat) := do
   let l ← left d
-  let amount ← liftC (multFloat64 l (ratioOf d now end_))
+  let a0 ← liftC (multFloat64 l (ratioOf d now end_))
+  -- repair 9976375 (vesting.go:137): `if amount > left { amount = left }` — float64(left) may round up for left ≥ 2^53
+  let amount := if l < a0 then l else a0
   let d' ← moveDest d now amount
   .ok (d', amount)
 
